@@ -158,8 +158,9 @@ func (c c04Case) bits() []bool {
 	return out
 }
 
-func checkC04(c c04Case) (Outcome, error) {
-	bits := c.bits()
+func checkC04(c c04Case) (Outcome, error) { return checkC04Bits(c, c.bits()) }
+
+func checkC04Bits(c c04Case, bits []bool) (Outcome, error) {
 	n := len(bits)
 	out := Outcome{Classes: []string{c.Test}}
 	what := fmt.Sprintf("%s m=%d n=%d blocks=%d tail=%d", c.Test, c.M, n, len(c.Blocks), c.Tail)
